@@ -293,23 +293,26 @@ class Bytes(Stage):
                 elif kind == 1 and len(b): b[min(i, len(b) - 1)] = d.int(0, 255)
                 elif kind == 2: del b[i:i + d.int(1, 5)]
                 else: b[i:i] = bytes([d.int(128, 255)])
-        return dict(data=list(bytes(b)), exit=d.choice([0, 3]), mode=d.choice(['file', 'pipe', 'run']))
+        # the sandbox only has C locales, where Python decodes standard input with surrogateescape; under an ordinary UTF-8 locale
+        # (en_US.UTF-8 ...) standard streams decode strictly - PYTHONIOENCODING reproduces exactly that
+        return dict(data=list(bytes(b)), exit=d.choice([0, 3]), mode=d.choice(['file', 'pipe', 'pipe', 'run']), stdio=d.choice([None, 'utf-8:strict', 'utf-8:strict']))
 
     def execute(self, case):
         res = Result()
         data = bytes(case['data'])
+        xenv = dict(PYTHONIOENCODING=case['stdio']) if case.get('stdio') else {}
         with cli.Scratch() as sc:
             if case['mode'] == 'file':
                 log = sc.write('in.log', data, 'wb')
-                rc, out, err = cli.run_main(['-C', '-l', log], stdin=b'q\n')
+                rc, out, err = cli.run_main(['-C', '-l', log], stdin=b'q\n', extra_env=xenv)
                 want = 0
             elif case['mode'] == 'pipe':
-                rc, out, err = cli.run_main(['-C', '-p'], stdin=data)
+                rc, out, err = cli.run_main(['-C', '-p'], stdin=data, extra_env=xenv)
                 want = 0
             else:
                 child = sc.write('child.py', cli.CHILD)
                 spec = sc.write('spec.json', json.dumps(dict(report=sc.path('report.json'), chunks=[[list(data), 0]], exit=case['exit'])))
-                rc, out, err = cli.run_main(['-C', '-r', cli.PY, child], stdin=b'q\n', extra_env=dict(WDV_CHILD_SPEC=spec))
+                rc, out, err = cli.run_main(['-C', '-r', cli.PY, child], stdin=b'q\n', extra_env=dict(xenv, WDV_CHILD_SPEC=spec))
                 want = case['exit']
         mode = case['mode']
         if rc is None or b'Failed to join subprocess thread' in err:
@@ -334,6 +337,7 @@ class Bytes(Stage):
             res.label('undecodable-bytes')
             res.nontrivial = True
         res.label('mode:' + mode)
+        if case.get('stdio'): res.label('strict-stdio')
         res.sample = dict(mode=mode, data=repr(data[:120]))
         return res
 
